@@ -192,3 +192,29 @@ Proof.
   unfold keys_in_range. induction pl as [|[a q] r IH]; simpl; intros H; [constructor|].
   inversion H; subst. destruct q; [apply IH; assumption|assumption].
 Qed.
+
+Lemma keys_in_range_preserved pm pl p : keys_in_range pl -> 0 <= pid_of p < 4294967296 ->
+  keys_in_range (fst (pool_add pm pl p)) /\ keys_in_range (fst (pool_dump pl)).
+Proof.
+  intros H Hp. split; [apply pool_add_keys_in_range; assumption|apply pool_dump_keys_in_range; assumption].
+Qed.
+
+(* the association list behaves as the Go map *)
+Lemma map_model pm pl k a x :
+  (packetAccumulator_pid a = k -> packetAccumulator_programMap a = Some (pm_mem pm) ->
+   gen_get pm (gen_set pl k a) k = Some a) /\
+  (x <> k -> gen_get pm (gen_set pl k a) x = gen_get pm pl x) /\
+  (sorted pl -> gen_get pm (gen_delete pl k) k = None) /\
+  (x <> k -> gen_get pm (gen_delete pl k) x = gen_get pm pl x) /\
+  (sorted pl -> increasing (gen_keys pl)) /\
+  (In k (gen_keys pl) <-> gen_get pm pl k <> None).
+Proof.
+  repeat split.
+  - apply gen_get_set_same.
+  - apply gen_get_set_other.
+  - apply gen_get_delete_same.
+  - apply gen_get_delete_other.
+  - apply gen_keys_increasing.
+  - apply (proj1 (gen_keys_complete pm pl k)).
+  - apply (proj2 (gen_keys_complete pm pl k)).
+Qed.
